@@ -588,7 +588,10 @@ def run(rep: common.Report):
               "string shapes (vc/pyvc/chars.py): fixed-width fields by div/mod arithmetic, numerals as tokens, regex matched on tokens",
               "engine: vc/pyvc + z3 5.1.0")
     rep.assume("ints are mathematical; UTC offsets |o| < 24 h and whole seconds; durations are whole seconds with |days| < 10^9; text "
-               "grammars are ASCII")
+               "grammars are ASCII",
+               "timedelta arithmetic is treated as mathematical: DURATION texts are decided for numerals weeks < 10^7, days < 10^8, hours / "
+               "minutes / seconds < 10^9 (far inside timedelta's range of +-999999999 days); beyond that only C04's clause holds "
+               "(ValueError, never OverflowError - decided there by the may-raise analysis incl. its arithmetic rule)")
     try:
         obs = obligations(eng, classes, rep.tier)
     except Exception as e:  # noqa
